@@ -785,6 +785,32 @@ def fam_release(g, prefix, n_random):
         for tl in tails:
             g.tag = 0
             add(pre + [["sub", ["flat_map", ["fm_ref", "a2", "b2", "c2"], ["ref", "s"]], NOREACT]] + opening + tl + [["unsub", "0"]])
+    # connectables and the four subject types: the shared subject, its hooks and the source observable are handles of
+    # the caller too; after every subscription ended and everything was dropped nothing may be left
+    for kind in ("publish", "ref_count", "replay"):
+        for mk in (lambda q: q, lambda q: ["map", "inc", q]):
+            for ender in ("complete", "error", "unsub", "take"):
+                g.tag = 0
+                evs = [n_(1), n_(2), C_] if ender != "error" else [n_(1), e_(5)]
+                steps = [["conn", "x", kind, mk(g.cold(evs))], ["sub", ["take", "1", ["ref", "x"]] if ender == "take" else mk(["ref", "x"]), NOREACT]]
+                if kind == "publish":
+                    steps.append(["connect", "x"])
+                steps.append(["unsub", "0"])
+                add(steps)
+                g.tag = 0
+                hot = [["subject", "a", "plain"], ["conn", "x", kind, mk(["ref", "a"])], ["sub", ["take", "1", ["ref", "x"]] if ender == "take" else mk(["ref", "x"]), NOREACT]]
+                if kind == "publish":
+                    hot.append(["connect", "x"])
+                hot += [["hnext", "a", "1"]] + ([["hcomplete", "a"]] if ender == "complete" else [["herror", "a", "6"]] if ender == "error" else [])
+                hot += [["unsub", "0"]] + ([["disconnect", "x"]] if kind == "publish" else [])
+                add(hot)
+        g.tag = 0
+        add([["conn", "x", kind, ["map", "inc", g.cold([n_(1), C_])]]])        # built, never subscribed, dropped
+    for kind in ("plain", "behavior", "replay", "async"):
+        sj = ["subject", "a", kind] + (["0"] if kind == "behavior" else [])
+        for mk in (lambda q: q, lambda q: ["map", "inc", q], lambda q: ["take", "1", q]):
+            for tail in ([["hcomplete", "a"]], [["herror", "a", "6"]], [["unsub", "0"], ["unsub", "1"]], [["unsub", "0"], ["hnext", "a", "3"], ["hcomplete", "a"]]):
+                add([sj, ["sub", mk(["ref", "a"]), NOREACT], ["hnext", "a", "1"], ["sub", mk(["ref", "a"]), NOREACT], ["hnext", "a", "2"]] + tail + [["unsub", "0"], ["unsub", "1"]])
     for j in range(n_random):
         g.tag = 0
         p = g.pipe_typed(g.r.randint(1, 3), hot=("a",))
